@@ -34,7 +34,7 @@ def main():
     timer = C.Timer()
     ctx = {"pid": pid, "tier": tier, "seed": seed, "timer": timer, "replay": a.replay}
 
-    build = C.build()
+    build = C.build(targets=list(mod.VFILES))
     ctx["build"] = build
     forbidden = C.scan_forbidden()
 
